@@ -57,8 +57,49 @@ def chunk_desc(t, facts):
 WIDTH = {'i8': 1, 'i16': 2, 'i32': 4, 'i64': 8, 'u8': 1, 'u16': 2, 'u32': 4, 'u64': 8, 'f64': 8}
 
 
+class _Soft:
+    """Collects verdicts of a table rule; when the code is not fully in the shape the rule reads, violations that rest on
+    the reading (missing arms, coverage, shapes) are reported as undecided instead."""
+
+    def __init__(self, run):
+        self.run = run
+        self.items = []
+        self.unread = []
+
+    def proved(self, *a, **k):
+        self.items.append(('proved', a, k, True))
+
+    def undecided(self, *a, **k):
+        self.items.append(('undecided', a, k, True))
+
+    def violation(self, *a, hard=False, **k):
+        self.items.append(('violation', a, k, hard))
+
+    def floor(self, *a, **k):
+        return self.run.floor(*a, **k)
+
+    def flush(self):
+        for kind, a, k, hard in self.items:
+            if kind == 'violation' and self.unread and not hard:
+                a = list(a)
+                if len(a) > 3:
+                    a[3] = f'not decided, because part of this function is not in a shape the rule reads ({self.unread[0]}); on a full reading this would be: ' + str(a[3])
+                self.run.undecided(*a, **k)
+            else:
+                getattr(self.run, kind)(*a, **k)
+
+
 def r18_1(ctx, run, rule='R18.1'):
     """Encoder: exact, lossless, shortest partition of the value range; tag bytes; returned count = bytes written."""
+    real_run = run
+    run = _Soft(real_run)
+    try:
+        return _r18_1(ctx, run, rule)
+    finally:
+        run.flush()
+
+
+def _r18_1(ctx, run, rule='R18.1'):
     f = ctx.facts
     b = f.one('number::Number::compact_encode')
     if b is None:
@@ -96,7 +137,17 @@ def r18_1(ctx, run, rule='R18.1'):
         loc = f"{b.file}:{b.blocks[p.end[1]]['term'].get('line')}"
         npaths += 1
         desc_key = None
+        atom0 = payload_value_atom(p)
+        # the value's range on this path must come from plain comparisons: a test through a call (try_from, leading_zeros ...) is not read
+        if atom0 is not None and any(c[0][0] != 'discr' and isinstance(c[2], bool) and any(s_[0] == 'call' and not canon(s_[1]).endswith(('::into', '::from', '::unsigned_abs', '::abs', '::is_nan', '::is_infinite', '::is_finite', '::is_sign_negative', '::is_sign_positive')) and any(x == atom0 or deref_all(x) == atom0 for x in subterms(s_))
+                                                                   for s_ in subterms(c[0])) for c in p.conds):
+            run.unread.append(f'the value is classified through a call on the path to {loc}')
+        local_writer = [e for e in p.calls() if e[1] in f.bodies and not called(e[1], 'Write::write_all')]
+        if local_writer and (not chunks or rc is None):
+            run.unread.append(f'bytes are written through {canon(local_writer[0][1]).split("::")[-1]}()')
+            continue
         if not okshape:
+            run.unread.append('a written chunk is neither constant bytes nor to_be_bytes of a value')
             run.violation(rule, b.path, f'path[{vname}]/shape', f'bytes written are not constant tag bytes / to_be_bytes: {[show(c[1]) if c[0]=="?" else c for c in chunks]}', loc)
             continue
         if rc != nbytes:
@@ -211,7 +262,7 @@ def r18_1(ctx, run, rule='R18.1'):
                                            ((tags['NUMBER_NAN'],), (tags['NUMBER_INF'],), (tags['NUMBER_NEG_INF'],))):
                 conds = '; '.join(f'{show(c[0])} = {c[2]}' for c in extra) or str(preds)
                 run.violation(rule, b.path, 'arm[Float64 short-form]', f'floats satisfying [{conds}] are written as {chunks}: a float may only be written as NUMBER_NAN, NUMBER_INF, NUMBER_NEG_INF '
-                              f'or NUMBER_FLOAT + its 8 bytes; any other form does not decode to the same float (variant, sign of zero, bits)', loc)
+                              f'or NUMBER_FLOAT + its 8 bytes; any other form does not decode to the same float (variant, sign of zero, bits)', loc, hard=True)
             elif preds or extra:
                 conds = '; '.join(f'{show(c[0])} = {c[2]}' for c in extra) or str(preds)
                 run.undecided(rule, b.path, 'arm[Float64 unclassified]', f'floats satisfying [{conds}] are written as {chunks}; the tests on this path do not classify the float as nan / infinite / finite '
